@@ -427,3 +427,323 @@ theorem met_catCols_ofW {α : Type} (w0 w1 : WGrid α) (rest : List (WGrid α))
     psums_eq]
 
 end TFVerif
+
+namespace TFVerif
+
+open Grid
+
+/-! ### fillna_col -/
+
+/-- replacing missing entries of a cell -/
+def replMissing {α : Type} (isMissing : α → Bool) (fill : α) (cell : List α) : List α :=
+  cell.map fun v => if isMissing v then fill else v
+
+theorem zipIdx_map_const {α : Type} (c : List α) (o : Nat) (P : Nat → Bool) (b : Bool)
+    (isMissing : α → Bool) (fill : α) (h : ∀ p, o ≤ p → p < o + c.length → P p = b) :
+    (c.zipIdx o).map (fun (v, p) => if P p && isMissing v then fill else v)
+      = if b then replMissing isMissing fill c else c := by
+  induction c generalizing o with
+  | nil => cases b <;> rfl
+  | cons x xs ih =>
+    have hx := h o (Nat.le_refl _) (by simp)
+    have := ih (o + 1) (fun p h1 h2 => h p (by omega) (by simp; omega))
+    simp only [List.zipIdx_cons, List.map_cons, this, hx]
+    cases b <;> simp [replMissing]
+
+/-- positional update of the flattened storage = per-cell update, when the position predicate is
+    constant on every cell's interval. -/
+theorem flatten_zipIdx_map {α : Type} (cells : List (List α)) (o k0 : Nat) (P : Nat → Bool) (Q : Nat → Bool)
+    (isMissing : α → Bool) (fill : α)
+    (h : ∀ k, k < cells.length → ∀ p,
+        o + ((cells.take k).map List.length).sum ≤ p →
+        p < o + ((cells.take (k + 1)).map List.length).sum → P p = Q (k0 + k)) :
+    (cells.flatten.zipIdx o).map (fun (v, p) => if P p && isMissing v then fill else v)
+      = ((cells.zipIdx k0).map fun (cell, k) => if Q k then replMissing isMissing fill cell else cell).flatten := by
+  induction cells generalizing o k0 with
+  | nil => rfl
+  | cons c cs ih =>
+    simp only [List.flatten_cons, List.zipIdx_append, List.map_append, List.zipIdx_cons, List.map_cons]
+    congr 1
+    · apply zipIdx_map_const
+      intro p h1 h2
+      have := h 0 (by simp) p (by simpa using h1) (by simpa using h2)
+      simpa using this
+    · have := ih (o + c.length) (k0 + 1) (by
+        intro k hk p h1 h2
+        have := h (k + 1) (by simp; omega) p
+          (by simp only [List.take_succ_cons, List.map_cons, List.sum_cons]; omega)
+          (by simp only [List.take_succ_cons, List.map_cons, List.sum_cons]; omega)
+        rw [this]; congr 1; omega)
+      exact this
+
+theorem take_sum_mono (ls : List Nat) (a b : Nat) (h : a ≤ b) : (ls.take a).sum ≤ (ls.take b).sum := by
+  obtain ⟨d, rfl⟩ := Nat.exists_eq_add_of_le h
+  rw [List.take_add, List.sum_append]; omega
+
+theorem zipIdx_mem_getD (l : List Nat) (c i : Nat) (h : (c, i) ∈ l.zipIdx) :
+    i < l.length ∧ l.getD i 0 = c := by
+  rw [List.mem_zipIdx_iff_getElem?] at h
+  have hi : i < l.length := by
+    by_cases hi : i < l.length
+    · exact hi
+    · rw [List.getElem?_eq_none (by omega)] at h; cases h
+  exact ⟨hi, by simp [List.getD_eq_getElem?_getD, h]⟩
+
+/-- membership in the gathered positions of a set of cells. -/
+theorem mem_gatherPositions (starts counts : List Nat) (p : Nat) :
+    p ∈ gatherPositions starts counts ↔
+      ∃ i, i < counts.length ∧ starts.getD i 0 ≤ p ∧ p < starts.getD i 0 + counts.getD i 0 := by
+  unfold gatherPositions batchedArange
+  constructor
+  · intro h
+    rw [List.mem_map] at h
+    obtain ⟨⟨b, a⟩, hba, rfl⟩ := h
+    rw [List.mem_flatMap] at hba
+    obtain ⟨⟨c, i⟩, hci, hmem⟩ := hba
+    simp only [List.mem_map, List.mem_range, Prod.mk.injEq] at hmem
+    obtain ⟨a', ha', rfl, rfl⟩ := hmem
+    obtain ⟨hi, hc⟩ := zipIdx_mem_getD counts c i hci
+    refine ⟨i, hi, ?_, ?_⟩
+    · show starts.getD i 0 ≤ starts.getD i 0 + a'
+      omega
+    · show starts.getD i 0 + a' < starts.getD i 0 + counts.getD i 0
+      omega
+  · rintro ⟨i, hi, h1, h2⟩
+    rw [List.mem_map]
+    have hlast : (match (i, p - starts.getD i 0) with | (b, a) => starts.getD b 0 + a) = p := by
+      show starts.getD i 0 + (p - starts.getD i 0) = p
+      omega
+    refine ⟨(i, p - starts.getD i 0), ?_, hlast⟩
+    rw [List.mem_flatMap]
+    refine ⟨(counts.getD i 0, i), ?_, ?_⟩
+    · rw [List.mem_zipIdx_iff_getElem?]
+      simp [List.getD_eq_getElem?_getD, hi]
+    · rw [List.mem_map]
+      exact ⟨p - starts.getD i 0, by rw [List.mem_range]; omega, rfl⟩
+
+end TFVerif
+
+namespace TFVerif
+
+open Grid
+
+theorem replMissing_length {α : Type} (isMissing : α → Bool) (fill : α) (cell : List α) :
+    (replMissing isMissing fill cell).length = cell.length := by simp [replMissing]
+
+/-- per-cell update by the cell's column index, over the flattened rows of a uniform grid. -/
+theorem zipIdx_flatten_uniform {β : Type} (rows : List (List β)) (C : Nat) (hC : 0 < C)
+    (h : ∀ r ∈ rows, r.length = C) (i : Nat) (F : Nat → β → β) :
+    (rows.flatten.zipIdx (i * C)).map (fun (cell, k) => F (k % C) cell)
+      = (rows.map fun row => (row.zipIdx 0).map fun (cell, c) => F c cell).flatten := by
+  induction rows generalizing i with
+  | nil => rfl
+  | cons r rs ih =>
+    have hr : r.length = C := h r (by simp)
+    simp only [List.flatten_cons, List.zipIdx_append, List.map_append, List.map_cons]
+    congr 1
+    · -- the row itself
+      have : ∀ (l : List β) (o : Nat), o + l.length ≤ C →
+          (l.zipIdx (i * C + o)).map (fun (cell, k) => F (k % C) cell)
+            = (l.zipIdx o).map (fun (cell, c) => F c cell) := by
+        intro l
+        induction l with
+        | nil => intros; rfl
+        | cons x xs ihx =>
+          intro o ho
+          simp only [List.zipIdx_cons, List.map_cons, List.length_cons] at ho ⊢
+          congr 1
+          · have : (i * C + o) % C = o := by
+              rw [Nat.add_comm, Nat.add_mul_mod_self_right]; exact Nat.mod_eq_of_lt (by omega)
+            rw [this]
+          · have := ihx (o + 1) (by omega)
+            rw [← Nat.add_assoc] at this
+            exact this
+      have := this r 0 (by omega)
+      simpa using this
+    · have := ih (fun r hr => h r (by simp [hr])) (i + 1)
+      rw [Nat.add_mul, Nat.one_mul, ← hr] at this
+      rw [hr] at this ⊢
+      exact this
+
+theorem zipIdx_map_len {β : Type} (l : List (List β)) (o : Nat) (f : List β × Nat → List β)
+    (hf : ∀ x, (f x).length = x.1.length) : (l.zipIdx o).map (List.length ∘ f) = l.map List.length := by
+  induction l generalizing o with
+  | nil => rfl
+  | cons x xs ih => simp [List.zipIdx_cons, hf, ih (o + 1)]
+
+theorem fillnaCol_ofGrid {α : Type} (g : Grid α) (hg : g.WF) (isMissing : α → Bool) (col : Nat) (fill : α)
+    (hcol : col < g.numCols) :
+    (MNT.ofGrid g).fillnaCol isMissing col fill
+      = MNT.ofGrid { g with rows := g.rows.map fun row => (row.zipIdx 0).map fun (cell, c) =>
+          if c = col then replMissing isMissing fill cell else cell } := by
+  have hlen := Grid.cells_length g hg
+  have hCpos : 0 < g.numCols := by omega
+  -- the new cell list
+  have hcells : ((g.rows.map fun row => (row.zipIdx 0).map fun (cell, c) =>
+        if c = col then replMissing isMissing fill cell else cell).flatten)
+      = (g.rows.flatten.zipIdx 0).map fun (cell, k) =>
+          if decide (k % g.numCols = col) then replMissing isMissing fill cell else cell := by
+    have := zipIdx_flatten_uniform g.rows g.numCols hCpos hg 0
+      (fun c cell => if c = col then replMissing isMissing fill cell else cell)
+    simp only [Nat.zero_mul] at this
+    rw [← this]
+    apply List.map_congr_left
+    intro ⟨cell, k⟩ _
+    simp
+  unfold MNT.fillnaCol
+  have hR : (MNT.ofGrid g).numRows = g.rows.length := rfl
+  have hC : (MNT.ofGrid g).numCols = g.numCols := rfl
+  simp only [hR, hC]
+  -- positions predicate is constant on each cell
+  have hoff : ∀ k, k ≤ g.rows.flatten.length →
+      (MNT.ofGrid g).offset.getD k 0 = ((g.rows.flatten.take k).map List.length).sum := by
+    intro k hk; rw [MNT.ofGrid_eq]; exact ofCells_off _ _ _ k hk
+  have hP : ∀ k, k < g.rows.flatten.length → ∀ p,
+      0 + ((g.rows.flatten.take k).map List.length).sum ≤ p →
+      p < 0 + ((g.rows.flatten.take (k + 1)).map List.length).sum →
+      (gatherPositions
+          (((List.range g.rows.length).map fun r => col + r * g.numCols).map
+            ((MNT.ofGrid g).offset.getD · 0))
+          (((List.range g.rows.length).map fun r => col + r * g.numCols).map fun k =>
+            (MNT.ofGrid g).offset.getD (k + 1) 0 - (MNT.ofGrid g).offset.getD k 0)).contains p
+        = decide ((0 + k) % g.numCols = col) := by
+    intro k hk p h1 h2
+    rw [Nat.zero_add] at h1 h2 ⊢
+    have hkR : k / g.numCols < g.rows.length := by
+      rw [hlen] at hk
+      exact Nat.div_lt_of_lt_mul (by rw [Nat.mul_comm]; exact hk)
+    rw [Bool.eq_iff_iff, List.contains_iff_mem, mem_gatherPositions, decide_eq_true_iff]
+    simp only [List.length_map, List.length_range]
+    constructor
+    · rintro ⟨i, hi, h3, h4⟩
+      have hki : col + i * g.numCols < g.rows.flatten.length := by
+        rw [hlen]
+        have : (i + 1) * g.numCols ≤ g.rows.length * g.numCols := Nat.mul_le_mul_right _ hi
+        rw [Nat.add_mul] at this; omega
+      have e1 : (((List.range g.rows.length).map fun r => col + r * g.numCols).map
+          ((MNT.ofGrid g).offset.getD · 0)).getD i 0
+          = ((g.rows.flatten.take (col + i * g.numCols)).map List.length).sum := by
+        rw [List.getD_eq_getElem?_getD]
+        simp only [List.map_map, List.getElem?_map, List.getElem?_range hi, Option.map_some,
+          Function.comp, Option.getD_some]
+        exact hoff _ (by omega)
+      have e2 : (((List.range g.rows.length).map fun r => col + r * g.numCols).map fun k =>
+          (MNT.ofGrid g).offset.getD (k + 1) 0 - (MNT.ofGrid g).offset.getD k 0).getD i 0
+          = ((g.rows.flatten.take (col + i * g.numCols + 1)).map List.length).sum
+            - ((g.rows.flatten.take (col + i * g.numCols)).map List.length).sum := by
+        rw [List.getD_eq_getElem?_getD]
+        simp only [List.map_map, List.getElem?_map, List.getElem?_range hi, Option.map_some,
+          Function.comp, Option.getD_some]
+        rw [hoff _ (by omega), hoff _ (by omega)]
+      rw [e1] at h3 h4
+      rw [e2] at h4
+      have hm1 := take_sum_mono (g.rows.flatten.map List.length) (col + i * g.numCols) (col + i * g.numCols + 1) (by omega)
+      simp only [← List.map_take] at hm1
+      -- k = col + i*C
+      have hk_eq : k = col + i * g.numCols := by
+        by_cases hlt : k < col + i * g.numCols
+        · have := take_sum_mono (g.rows.flatten.map List.length) (k + 1) (col + i * g.numCols) (by omega)
+          simp only [← List.map_take] at this
+          omega
+        · by_cases hgt : col + i * g.numCols < k
+          · have := take_sum_mono (g.rows.flatten.map List.length) (col + i * g.numCols + 1) k (by omega)
+            simp only [← List.map_take] at this
+            omega
+          · omega
+      rw [hk_eq, Nat.add_mul_mod_self_right]
+      exact Nat.mod_eq_of_lt hcol
+    · intro hmod
+      refine ⟨k / g.numCols, hkR, ?_, ?_⟩
+      · have hk_eq : col + k / g.numCols * g.numCols = k := by
+          have := Nat.div_add_mod k g.numCols
+          rw [hmod, Nat.mul_comm] at this; omega
+        rw [List.getD_eq_getElem?_getD]
+        simp only [List.map_map, List.getElem?_map, List.getElem?_range hkR, Option.map_some,
+          Function.comp, Option.getD_some, hk_eq]
+        rw [hoff k (by omega)]
+        exact h1
+      · have hk_eq : col + k / g.numCols * g.numCols = k := by
+          have := Nat.div_add_mod k g.numCols
+          rw [hmod, Nat.mul_comm] at this; omega
+        rw [List.getD_eq_getElem?_getD, List.getD_eq_getElem?_getD]
+        simp only [List.map_map, List.getElem?_map, List.getElem?_range hkR, Option.map_some,
+          Function.comp, Option.getD_some, hk_eq]
+        rw [hoff k (by omega), hoff (k + 1) (by omega)]
+        have hm := take_sum_mono (g.rows.flatten.map List.length) k (k + 1) (by omega)
+        simp only [← List.map_take] at hm
+        omega
+  have hvals := flatten_zipIdx_map g.rows.flatten 0 0 _ (fun k => decide (k % g.numCols = col))
+    isMissing fill hP
+  have hV : (MNT.ofGrid g).values = g.rows.flatten.flatten := rfl
+  rw [hV, hvals, ← hcells]
+  -- assemble
+  rw [MNT.ofGrid_eq, MNT.ofGrid_eq]
+  simp only [MNT.ofCells, List.length_map]
+  congr 1
+  -- offsets unchanged: cell lengths are preserved
+  congr 1
+  rw [hcells]
+  simp only [List.map_map]
+  symm
+  apply zipIdx_map_len
+  intro ⟨cell, k⟩
+  simp only
+  split <;> simp [replMissing_length]
+
+end TFVerif
+
+namespace TFVerif
+
+open Grid
+
+theorem met_fillnaCol_ofW {α : Type} (w : WGrid α) (hw : w.WF) (isMissing : α → Bool) (col : Nat) (fill : α)
+    (hcol : col < w.grid.numCols) :
+    (MET.ofW w).fillnaCol isMissing col fill
+      = MET.ofW { w with grid := { w.grid with rows := (w.grid.rows.map fun row => (row.zipIdx 0).map fun (cell, c) =>
+          if c = col then replMissing isMissing fill cell else cell) } } := by
+  have hO : (MET.ofW w).offset = ps 0 w.widths := by simp [MET.ofW, MET.ofGrid, psums_eq]
+  have hCw : w.grid.numCols = w.widths.length := hw.1
+  unfold MET.fillnaCol
+  simp only [MET.ofW, MET.ofGrid, psums_eq, List.length_map, List.map_map]
+  congr 1
+  apply List.map_congr_left
+  intro row hrow
+  simp only [Function.comp]
+  have hrl : row.length = w.grid.numCols := hw.grid row hrow
+  have hwd : row.map List.length = w.widths := hw.2 row hrow
+  have hoff : ∀ k, k ≤ row.length → (ps 0 w.widths).getD k 0 = ((row.take k).map List.length).sum := by
+    intro k hk
+    rw [ps_getD 0 w.widths k (by rw [← hwd]; simpa using hk), ← hwd, List.map_take]; simp
+  have hP : ∀ k, k < row.length → ∀ p,
+      0 + ((row.take k).map List.length).sum ≤ p →
+      p < 0 + ((row.take (k + 1)).map List.length).sum →
+      (decide ((ps 0 w.widths).getD col 0 ≤ p) && decide (p < (ps 0 w.widths).getD (col + 1) 0))
+        = decide (0 + k = col) := by
+    intro k hk p h1 h2
+    rw [Nat.zero_add] at h1 h2 ⊢
+    rw [hoff col (by omega), hoff (col + 1) (by omega)]
+    rw [Bool.eq_iff_iff, Bool.and_eq_true, decide_eq_true_iff, decide_eq_true_iff, decide_eq_true_iff]
+    constructor
+    · rintro ⟨h3, h4⟩
+      by_cases hlt : k < col
+      · have := take_sum_mono (row.map List.length) (k + 1) col (by omega)
+        simp only [← List.map_take] at this
+        omega
+      · by_cases hgt : col < k
+        · have := take_sum_mono (row.map List.length) (col + 1) k (by omega)
+          simp only [← List.map_take] at this
+          omega
+        · omega
+    · rintro rfl
+      exact ⟨h1, h2⟩
+  have := flatten_zipIdx_map row 0 0
+    (fun p => decide ((ps 0 w.widths).getD col 0 ≤ p) && decide (p < (ps 0 w.widths).getD (col + 1) 0))
+    (fun k => decide (k = col)) isMissing fill hP
+  simp only [Bool.and_assoc] at this ⊢
+  rw [this]
+  congr 1
+  apply List.map_congr_left
+  intro ⟨cell, k⟩ _
+  simp
+
+end TFVerif
